@@ -188,8 +188,8 @@ def model_check(cfgname, workers=None, timeout=3000, module="MC.tla"):
 HWM_RE = re.compile(r'<<"HWM", (\d+), (\d+)>>')
 
 
-def conformance(trace_path, workdir, name, consts=None, max_rounds=6, timeout=None):
-    """TLC trace validation against the design model (TraceRcProxy). Returns dict(accepted, drift=[tid...], states)."""
+def conformance(trace_path, workdir, name, consts=None, max_rounds=6, timeout=None, module="TraceRcProxy"):
+    """TLC trace validation against a design model (TraceRcProxy / TraceRcTopo). Returns dict(accepted, drift=[tid...], states)."""
     lines = open(trace_path).read().splitlines(True)
     tids = []
     for ln in lines:
@@ -206,11 +206,11 @@ def conformance(trace_path, workdir, name, consts=None, max_rounds=6, timeout=No
         d = os.path.join(workdir, "tlc-%s-conf%d" % (name, rnd))
         os.makedirs(d, exist_ok=True)
         copy_spec(d)
-        cfg = open(os.path.join(d, "TraceRcProxy.cfg")).read().replace('"trace.ndjson"', json.dumps(p))
+        cfg = open(os.path.join(d, module + ".cfg")).read().replace('"trace.ndjson"', json.dumps(p))
         cfg = set_consts(cfg, consts)
-        open(os.path.join(d, "TraceRcProxy.cfg"), "w").write(cfg)
+        open(os.path.join(d, module + ".cfg"), "w").write(cfg)
         budget = timeout or int(os.environ.get("VERIF_CONF_TIMEOUT", "90"))
-        rc, out = tlc("TraceRcProxy.tla", "TraceRcProxy.cfg", d, workers=1, timeout=budget,
+        rc, out = tlc(module + ".tla", module + ".cfg", d, workers=1, timeout=budget,
                       javaopts=["-Dtlc2.tool.queue.IStateQueue=StateDeque", "-Xss64m", "-XX:ParallelGCThreads=4", "-Xmx6g"])
         if rc == -9:
             # the search for an explanation did not finish in its budget: neither accepted nor drift
@@ -292,7 +292,7 @@ def chunks(lst, n):
 
 
 def replay_and_validate(cfg, scenarios, workdir, tag, par=None, spec="PropTrace", cfgfile="PropTrace.cfg", consts=None,
-                        binary="worker", events_per_tlc=60000, conform=None, group=1):
+                        binary="worker", events_per_tlc=60000, conform=None, group=1, conform_module="TraceRcProxy", conform_timeout=None):
     """Replays scenarios on the real proxy (several workers in parallel) and validates every trace with TLC
     (few JVMs, many traces each). Returns violations (each with its scenario attached), counts and TLC statistics."""
     par = par or NCPU
@@ -349,7 +349,7 @@ def replay_and_validate(cfg, scenarios, workdir, tag, par=None, spec="PropTrace"
     def val(k):
         v = validate_trace(merged[k], workdir, "%s-v%d" % (tag, k), spec=spec, cfgfile=cfgfile, consts=consts)
         if conform is not None:
-            v["conf"] = conformance(merged[k], workdir, "%s-c%d" % (tag, k), consts=conform)
+            v["conf"] = conformance(merged[k], workdir, "%s-c%d" % (tag, k), consts=conform, module=conform_module, timeout=conform_timeout)
         return v
 
     with ThreadPoolExecutor(max_workers=4) as ex:
